@@ -20,6 +20,11 @@ Proof. vm_compute. reflexivity. Qed.
 Theorem repo_handlers_registered : map d_name GenUpgrade.upgrades = GenUpgrade.handlers_registered.
 Proof. vm_compute. reflexivity. Qed.
 
+(** the binary's consensus versions of the custom modules are the recorded ones: RunMigrations has no step to take for them
+    (and no migration to look for) *)
+Theorem repo_custom_versions_need_no_migration : GenUpgrade.custom_consensus_versions = baseline_custom_versions.
+Proof. vm_compute. reflexivity. Qed.
+
 Theorem repo_nonempty : (5 <=? length GenUpgrade.upgrades)%nat && (20 <=? length GenUpgrade.mounted_stores)%nat = true.
 Proof. vm_compute. reflexivity. Qed.
 
